@@ -356,6 +356,12 @@ func explain(m *MRepo, o *obs, extra *MRepo, k Knobs) []string {
 				continue
 			}
 			must, may := m.referrers(d)
+			if m.respLost[d] || (extra != nil && extra.respLost[d]) {
+				// a collection (possibly the interrupted operation itself) may drop this response by policy although the
+				// artifacts stay (known family, judged by the collection checks): nothing must be listed
+				may = append(may, must...)
+				must = nil
+			}
 			got := map[string]bool{}
 			if val != "" && val != "!" {
 				for _, g := range strings.Split(val, ",") {
